@@ -7,6 +7,7 @@ import (
 	"verif/corp"
 	"verif/ev"
 	"verif/gen"
+	"verif/gram"
 )
 
 func init() {
@@ -55,6 +56,15 @@ func init() {
 		// (ii) separate free-running pass under the race detector (a cooperative scheduler's hand-offs are
 		// happens-before edges, so races inside a step are invisible to part (i))
 		var raceItems []*corp.Item
+		// nesting, right-recursive and left-recursive shapes first: their deep inputs drive the parser stack beyond
+		// its initial capacity (growth and reuse of per-parser buffers)
+		for _, s := range []string{"S: l S r | x", "L: x L | x", "L: L x | x", "E: E p T | T ; T: l E r | x"} {
+			for _, fl := range [][]string{nil, {"-zip"}} {
+				it := corp.NewItem("Deep", gram.WithRecActions(gram.Mk(s)), fl...)
+				it.RtImp = true
+				raceItems = append(raceItems, it)
+			}
+		}
 		for i, it := range c.Items {
 			if tier == "thorough" || i < 8 {
 				raceItems = append(raceItems, it)
